@@ -701,3 +701,209 @@ def render_model_fiber(enc, ops, m):
     if recs:
         line += " " + " ".join(str(x) for x in recs)
     return img, line
+
+
+# ------------------------------------------------------------------------------------------------ PEG images
+# Marshalled form (peg_marshal): LB_ABSTRACT, symbol "core/peg", size(bytecode_len), int(num_constants), bytecode words as
+# ints, constants as values.  `rows` = (ops {name: number}, vrows, urows) from tools/gen/pegaccess.py, so operand kinds and
+# widths follow the current peg.c.
+
+def push64(x):
+    if x <= 0xF0:
+        return bytes([x])
+    bs = []
+    while x:
+        bs.append(x & 0xFF)
+        x >>= 8
+    return bytes([0xF0 + len(bs)]) + bytes(bs)
+
+
+def peg_image(lb, words, consts, enc):
+    o = [bytes([lb["LB_ABSTRACT"]]), bytes([lb["LB_SYMBOL"]]), pushint(8), b"core/peg", push64(len(words)), pushint(len(consts))]
+    for w in words:
+        o.append(pushint(wrap32(w)))
+    for c in consts:
+        o.append(enc.val(c))
+    return b"".join(o)
+
+
+class PegRows:
+    def __init__(self, ops, vrows, urows):
+        self.ops = ops
+        self.name_of = {v: k for k, v in ops.items()}
+        self.v = {ops[n]: r for n, r in vrows.items()}
+        self.u = {ops[n]: r for n, r in urows.items()}
+
+    def kinds(self, op):
+        """operand kinds of the fixed part: list over k = 1 .. width-1 of 'rule' | 'const' | 'imm'"""
+        v, u = self.v[op], self.u.get(op, dict(ruleOps=[], constOps=[]))
+        out = []
+        for k in range(1, v["width"]):
+            if k in v["checkedRules"] or k in v["markedRules"] or k in u["ruleOps"]:
+                out.append("rule")
+            elif k in v["checkedConsts"] or k in u["constOps"]:
+                out.append("const")
+            else:
+                out.append("imm")
+        return out
+
+
+def _peg_imm(rng, rows, op, k):
+    n = rows.name_of[op]
+    if n == "RULE_RANGE":
+        lo = rng.choice([48, 97, 0]); return lo | ((lo + rng.choice([0, 9, 25])) << 16)
+    if n == "RULE_READINT":
+        return rng.range(1, 8) | rng.choice([0, 0x10, 0x20, 0x30]) if k == 1 else rng.below(3)
+    if n == "RULE_LOOK" and k == 1:
+        return rng.choice([0, 0, 1, 0xFFFFFFFF])
+    if n == "RULE_BETWEEN":
+        return rng.choice([0, 1]) if k == 1 else rng.choice([1, 2, 3])
+    if n == "RULE_SET":
+        return rng.choice([0, 0xFFFFFFFF, 0x03FF0000, 0x07FFFFFE])
+    if n in ("RULE_NCHAR", "RULE_NOTNCHAR"):
+        return rng.choice([0, 1, 1, 2])
+    if n == "RULE_CAPTURE_NUM" and k == 2:
+        return rng.choice([0, 10, 16])
+    return rng.below(3)
+
+
+def gen_peg(rng, rows, gadget_op):
+    """valid program: instruction i only refers to later instructions (terminates).  Returns dict(instrs, nconst)."""
+    known = sorted(op for op, v in rows.v.items())
+    leaves = [op for op in known if rows.v[op]["var"] != "list" and "rule" not in rows.kinds(op) and rows.name_of[op] != "RULE_ERROR"]
+    n = rng.range(2, 7)
+    nconst = rng.below(3)
+    instrs = []
+    for i in range(n):
+        last = i == n - 1
+        for _ in range(40):
+            op = rng.choice(leaves if last else known)
+            if rows.name_of[op] in ("RULE_ERROR",):
+                continue
+            ks = rows.kinds(op)
+            if "const" in ks and nconst == 0:
+                continue
+            break
+        v = rows.v[op]
+        ins = dict(op=op, ops=[], payload=[], elems=[])
+        for k, kind in enumerate(rows.kinds(op), 1):
+            if kind == "rule":
+                ins["ops"].append(("rule", rng.range(i + 1, n - 1)))
+            elif kind == "const":
+                ins["ops"].append(("const", rng.below(nconst)))
+            else:
+                ins["ops"].append(("imm", _peg_imm(rng, rows, op, k)))
+        if v["var"] == "literal":
+            txt = rng.choice([b"a", b"aa", b"q", b"", b"hello", b"12", b"a1b2c"])
+            if rng.chance(1, 3):
+                # gadget: payload words that spell `constant <huge index> 0`
+                ins["payload"] = [gadget_op, 0x7FFFFFF0, 0]
+                ins["ops"] = [("imm", 12)]
+            else:
+                ins["ops"] = [("imm", len(txt))]
+                pad = txt + b"\0" * (-len(txt) % 4)
+                ins["payload"] = [int.from_bytes(pad[j:j + 4], "little") for j in range(0, len(pad), 4)]
+        elif v["var"] == "list":
+            m = rng.range(1, 3) if not last else 0
+            ins["elems"] = [rng.range(i + 1, n - 1) for _ in range(m)] if not last else []
+            ins["ops"] = [("imm", len(ins["elems"]))]
+        instrs.append(ins)
+    return dict(instrs=instrs, nconst=nconst, readint_op=rows.ops.get("RULE_READINT"))
+
+
+def layout_peg(p):
+    """-> (words, offsets)"""
+    offs, pos = [], 0
+    for ins in p["instrs"]:
+        offs.append(pos)
+        pos += 1 + len(ins["ops"]) + len(ins["payload"]) + len(ins["elems"])
+    words = []
+    for ins in p["instrs"]:
+        words.append(ins["op"])
+        for kind, val in ins["ops"]:
+            if kind == "rule":
+                words.append(offs[val] if isinstance(val, int) and 0 <= val < len(offs) else 0)
+            elif kind == "rawrule":
+                words.append(val)
+            else:
+                words.append(val)
+        words += ins["payload"]
+        words += [offs[e] if isinstance(e, int) and 0 <= e < len(offs) else 0 for e in ins["elems"]]
+    return words, offs
+
+
+def mutate_peg_words(rng, p, words, offs):
+    """structure-aware mutation on the laid-out program; returns (words, nconst, label)"""
+    nconst = p["nconst"]
+    blen = len(words)
+    # positions of rule / const operand words
+    rule_pos, const_pos, lit_payload = [], [], []
+    for ins, o in zip(p["instrs"], offs):
+        for k, (kind, val) in enumerate(ins["ops"], 1):
+            if kind == "rule":
+                rule_pos.append(o + k)
+            elif kind == "const":
+                const_pos.append(o + k)
+        base = o + 1 + len(ins["ops"])
+        if ins["payload"]:
+            lit_payload.append(base)
+        for j in range(len(ins["elems"])):
+            rule_pos.append(base + len(ins["payload"]) + j)
+    k = rng.below(10)
+    w = list(words)
+    if k == 0:
+        return w, nconst, "valid"
+    if k in (1, 2, 3) and rule_pos:
+        pos = rng.choice(rule_pos)
+        if lit_payload and rng.chance(1, 2):
+            w[pos] = rng.choice(lit_payload); return w, nconst, "rule->literal-payload"
+        inside = [i for i in range(blen) if i not in offs]
+        w[pos] = rng.choice(inside) if inside and rng.chance(2, 3) else rng.choice([blen, blen - 1, 0, blen + 1, 2 ** 31, 2 ** 32 - 1])
+        return w, nconst, "rule->mid-instruction"
+    if k == 4 and const_pos:
+        w[rng.choice(const_pos)] = rng.choice([nconst, max(nconst - 1, 0), 0x7FFFFFF0, 2 ** 32 - 1]); return w, nconst, "const-index"
+    if k == 5:
+        return w[:-1], nconst, "drop-last-word"
+    if k == 6:
+        return w + [rng.choice([0, 1, 7, 16, 99])], nconst, "extra-word"
+    if k == 7 and blen:
+        # (the READINT mode word has an extra range check that the model does not carry: left alone)
+        skip = set(o + 1 for ins, o in zip(p["instrs"], offs) if p.get("readint_op") == ins["op"])
+        cand = [i for i in range(blen) if i not in skip]
+        i = rng.choice(cand); w[i] = rng.choice([w[i] + 1, max(w[i] - 1, 0), 2 ** 32 - 1, 0x7FFFFFFF, 40, 0]); return w, nconst, "word+-"
+    if k == 8:
+        return [], nconst, "empty"
+    return w, max(nconst - 1, 0), "fewer-constants"
+
+
+def peg_row_witness(rows, op, gadget_op):
+    """programs in which each rule operand of `op` in turn points at a literal payload spelling `constant 0x7FFFFFF0 0`,
+    every other rule operand at `nchar 0` (always matches), constant operands at 0 (or out of range in the last variant)"""
+    v, u = rows.v[op], rows.u.get(op, dict(ruleOps=[], constOps=[], listRules=False))
+    nchar = rows.ops["RULE_NCHAR"]
+    lit = rows.ops["RULE_LITERAL"]
+    kinds = rows.kinds(op)
+    out = []
+    islist = v["var"] == "list"
+    width = 1 + len(kinds) + (2 if islist else 0)
+    X, L = width, width + 2
+    signed = list(u.get("signedIndexOps", []))
+    targets = [k for k, kind in enumerate(kinds, 1) if kind == "rule"] + (["elem"] if islist else []) + ["const"] + (["signed"] if signed else [])
+    for tgt in targets:
+        words = [op]
+        for k, kind in enumerate(kinds, 1):
+            if islist and k == 1:
+                words.append(2)
+            elif kind == "rule":
+                words.append(L + 2 if tgt == k else X)
+            elif kind == "const":
+                words.append(0x7FFFFFF0 if tgt == "const" else 0)
+            elif tgt == "signed" and k in signed:
+                words.append(0xFFF00000)      # read back as a large negative int32 index
+            else:
+                words.append(1 if rows.name_of[op] == "RULE_BETWEEN" and k == 2 else 0)
+        if islist:
+            words += [X, L + 2 if tgt == "elem" else X]
+        words += [nchar, 0, lit, 12, gadget_op, 0x7FFFFFF0, 0]
+        out.append((words, 1, "target=%s" % tgt))
+    return out
